@@ -1,4 +1,5 @@
 import Ledger.Proofs.CoreAccounts
+import Ledger.Spec.Hist
 
 /-!
 C18 (abstract-store / algebra part; the controller-level C18 theorems live in `Props/C18.lean`).
@@ -55,6 +56,46 @@ theorem first_usage_is_min (a : String) (fu ins : Int) (t : TxIn) :
     ∃ fu', datesStep a (some (fu, ins)) t = some (fu', ins) ∧ fu' ≤ fu ∧
       (t.involves a = true → fu' ≤ t.timestamp) :=
   datesStep_mono a fu ins t
+
+/-- Claim of the property as worded ("first usage is the earliest effective timestamp among
+    the transactions involving the account"), over whole histories incl. reverts — kept
+    type-checked; FALSE for the real code (known finding
+    `C18:first-usage-not-earliest-effective-timestamp`): `revertTransaction` commits the revert
+    transaction without `upsertTransactionAccounts`. -/
+def first_usage_is_earliest : Prop :=
+  ∀ (ops : List Op) (a : String) (fu : Int),
+    firstUsage (World.run {} ops).1.ledger a = some fu →
+    ∀ t ∈ (World.run {} ops).1.ledger.txs, t.involves a = true → fu ≤ t.timestamp
+
+/-- Witness: a FUTURE-dated transaction (timestamp 100, written at 10) reverted now (at 20, not
+    at the effective date): the revert transaction is dated 20 and involves `a`, but `a`'s
+    first usage stays 100 — in the journal fold and in the abstract `accounts` table alike. -/
+theorem first_usage_is_min_counterexample : ¬ first_usage_is_earliest := by
+  intro h
+  have := h [.tx 10 (some 100) [⟨"world", "a", 5, "USD"⟩] "" [] [] true, .revert 20 1 true false []] "a" 100
+    (by decide)
+    { id := 2, postings := [⟨"a", "world", 5, "USD"⟩], timestamp := 20, insertedAt := 20,
+      metadata := [("com.formance.spec/state/reverts", "1")] }
+    (by decide) (by decide)
+  exact absurd this (by decide)
+
+example : ((World.run {} [.tx 10 (some 100) [⟨"world", "a", 5, "USD"⟩] "" [] [] true, .revert 20 1 true false []]).1.store.accounts.get? "a").map
+    (·.firstUsage) = some 100 := by decide
+
+/-- What does hold: the first usage stored for an account is the earliest timestamp among the
+    committed transactions that upsert their accounts (every transaction except the ones a
+    revert commits) and involve it — a lower bound of all of them, attained by one. -/
+theorem first_usage_is_min_partial (ops : List StoreOp) (st : Store) (h : runOps ops = .ok st) (a : String)
+    (r : AccountRow) (hr : st.accounts.get? a = some r) :
+    (∀ t ∈ commitsOf ops, t.involves a = true → r.firstUsage ≤ t.timestamp) ∧
+    (∃ t ∈ commitsOf ops, t.involves a = true ∧ t.timestamp = r.firstUsage) := by
+  have hd := accounts_follow_history ops st h a
+  rw [hr] at hd
+  have hd' : (commitsOf ops).foldl (datesStep a) none = some (r.firstUsage, r.insertionDate) := hd.symm
+  refine ⟨(foldl_datesStep_bound a _ none _ _ hd').1, ?_⟩
+  rcases foldl_datesStep_attained a _ none _ _ hd' with h1 | ⟨i0, h2⟩
+  · exact h1
+  · simp at h2
 
 /-- The table stays key-sorted without duplicates. -/
 theorem accounts_wf (ops : List StoreOp) (st : Store) (h : runOps ops = .ok st) : Map.WF st.accounts :=
